@@ -207,6 +207,7 @@ def explore(
     on_any: Optional[Callable[[Z3Dom, PathResult, Any], None]] = None,
     wellformed: bool = True,
     extra_setup: Optional[Callable[[Z3Dom], None]] = None,
+    prefix_early_exit_ok: bool = False,
 ) -> Tuple[Executor, Z3Dom]:
     """Depth-first symbolic exploration.  Callbacks run while the solver holds the path condition."""
     n_addr = ts.ADDR_FIRST_LITERAL + len([v for v in ts.address_table(prog).values() if v >= ts.ADDR_FIRST_LITERAL])
@@ -214,7 +215,7 @@ def explore(
     dom.declare_all(ALL_FIELD_FUNCS)
     if extra_setup is not None:
         extra_setup(dom)
-    ex = Executor(prog, dom, mode, governed, unroll, max_depth, fuel, retsub_any, prefix)
+    ex = Executor(prog, dom, mode, governed, unroll, max_depth, fuel, retsub_any, prefix, prefix_early_exit_ok=prefix_early_exit_ok)
 
     def cb(res: PathResult, st: Any) -> None:
         if on_any is not None:
